@@ -39,7 +39,7 @@ Theorem C15_closed_eliminable (mt : list name) (m : model) :
   length vals = length vars ->
   (forall v x, In v vals -> In x vars -> occurs x v = false) ->
   forall e x, In e (eqs (eliminate_vars mt m) ++ ieqs (eliminate_vars mt m)) ->
-              u = false -> defs <> [] -> In x vars -> occurs x e = false.
+              u = false -> has_dup vars = false -> defs <> [] -> In x vars -> occurs x e = false.
 Proof. exact (closed_eliminate_vars mt m). Qed.
 Print Assumptions C15_closed_eliminable.
 
